@@ -75,6 +75,14 @@ func genBase(rt *rapid.T, fam string) *Scenario {
 		sc.Device = p.A.State(true).Print(panm.Spelling{})
 		sc.Target["router"] = p.B.State(false).Print(panm.Spelling{})
 		sc.Members = []httpdev.PanMember{{}}
+		// what an approve that was interrupted before its commit leaves
+		// behind: entries marked as changed and not committed
+		if rapid.IntRange(0, 3).Draw(rt, "dirty") == 0 {
+			sc.Dirty = rapid.IntRange(1, 3).Draw(rt, "dirtyN")
+			if rapid.IntRange(0, 2).Draw(rt, "dirtyOther") == 0 {
+				sc.DirtyAdmin = "alice"
+			}
+		}
 	case "nsx":
 		p := nsxm.GenPair(rt, nsxm.GenOpts{})
 		sc.Device = p.A.Print(nsxm.Spelling{})
